@@ -286,7 +286,7 @@ def build(**kw):
 
 # ------------------------------------------------------------------------------------------------ init image layout (enumeration)
 
-def init_job(name="", memtype="SDR", mapping="ROW_BANK_COL", databits=8, nwords=None, seed=0):
+def init_job(name="", memtype="SDR", mapping="ROW_BANK_COL", databits=8, nwords=None, seed=0, stride=1):
     import time as _t
     t0 = _t.time()
     from litedram.phy.model import SDRAMPHYModel
@@ -306,7 +306,7 @@ def init_job(name="", memtype="SDR", mapping="ROW_BANK_COL", databits=8, nwords=
     assert cpw * bytes_per_col == wbytes, (cpw, bytes_per_col, wbytes)
     image = b"".join(struct.pack("<I", w) for w in init)
     evals = 0; viols = []; samples = []
-    for i in range(len(image)):
+    for i in range(0, len(image), stride):
         ci = i // bytes_per_col; lane_in_col = i % bytes_per_col
         col = ci % ncols
         if mapping == "ROW_BANK_COL":
@@ -330,12 +330,12 @@ def init_job(name="", memtype="SDR", mapping="ROW_BANK_COL", databits=8, nwords=
         if e is not None:
             out["known_hits"][e["id"]] = out["known_hits"].get(e["id"], 0) + 1; out["known_entries"][e["id"]] = e["title"]
         else:
-            out["violations"].append(runner.enum_violation(PROP, name, "checks.c19", dict(memtype=memtype, mapping=mapping, databits=databits, nwords=nwords), rule, msg, **det))
+            out["violations"].append(runner.enum_violation(PROP, name, "checks.c19", dict(memtype=memtype, mapping=mapping, databits=databits, nwords=nwords, stride=stride), rule, msg, **det))
     return out
 
 
 def replay_case(case):
-    r = init_job(name="replay", memtype=case["memtype"], mapping=case["mapping"], databits=case["databits"], nwords=case.get("nwords"))
+    r = init_job(name="replay", memtype=case["memtype"], mapping=case["mapping"], databits=case["databits"], nwords=case.get("nwords"), stride=case.get("stride", 1))
     return [(v["rule"], v["msg"]) for v in r["violations"]]
 
 
@@ -344,6 +344,7 @@ def configs(tier):
     if tier == "quick":
         for mt, K in (("SDR", 4), ("DDR2", 4), ("DDR3", 4)):
             mc.append(("trace-%s-K%d" % (mt, K), dict(memtype=mt, K=K)))
+        mc.append(("trace-DDR4-K4-nomask", dict(memtype="DDR4", K=4, masks=False)))          # write latency 2: two writes to one bank in flight
         mc.append(("trace-DDR3-K4-nogran", dict(memtype="DDR3", K=4, we_granularity=0, masks=False)))
         # the controller's real issue pattern on multi-phase PHYs: row + column command in one cycle, auto-precharge, a row with A10 set
         mc.append(("trace-DDR3-K4-dual-autopre", dict(memtype="DDR3", K=4, dual=True, autopre=True, masks=False, rows=(0, 1029))))
@@ -361,6 +362,10 @@ def configs(tier):
         for mp in ("ROW_BANK_COL", "BANK_ROW_COL"):
             for db in ((8, 16) if tier == "quick" else (8, 16, 32)):
                 en.append(("init-%s-%s-x%d" % (mt, mp, db), dict(memtype=mt, mapping=mp, databits=db)))
+    # an image long enough to reach past the first `ncols` rows of bank 0 and into bank 1 in the BANK_ROW_COL mapping (sampled every 7th byte)
+    for mt in (("SDR", "DDR3") if tier == "quick" else ("SDR", "DDR2", "DDR3", "DDR4")):
+        en.append(("init-%s-BANK_ROW_COL-x8-long" % mt, dict(memtype=mt, mapping="BANK_ROW_COL", databits=8, nwords=(2048 * 16 + 40 * 16) // 4, stride=7)))
+        en.append(("init-%s-ROW_BANK_COL-x16-long" % mt, dict(memtype=mt, mapping="ROW_BANK_COL", databits=16, nwords=(40 * 2 * 16 * 2) // 4, stride=3)))
     return mc, en
 
 
